@@ -589,7 +589,7 @@ RUNTIME_BODIES = {
  '@__cxa_get_exception_ptr': '{ return (RET)a0; }',
  '@__cxa_end_catch': '{ __VX_ASSERT(__vx_caught_n > 0, "end_catch without begin_catch"); __CPROVER_assume(__vx_caught_n > 0); __vx_caught_n--;'
    ' if (!__vx_caught_rethrown[__vx_caught_n]) { int sp = __vx_pending; void* so = __vx_exc_obj; void* st = __vx_exc_type; void* sd = __vx_exc_dtor; __vx_pending = 0;'
-   ' if (__vx_caught_dtor[__vx_caught_n]) ((__vx_dtor_fn*)__vx_caught_dtor[__vx_caught_n])(__vx_caught_obj[__vx_caught_n]);'
+   ' if (__vx_caught_dtor[__vx_caught_n]) __vx_run_exc_dtor(__vx_caught_dtor[__vx_caught_n], __vx_caught_obj[__vx_caught_n]);'
    ' __vx_exc_alive--; __vx_pending = sp; __vx_exc_obj = so; __vx_exc_type = st; __vx_exc_dtor = sd; } }',
  '@__cxa_rethrow': '{ __VX_ASSERT(__vx_caught_n > 0, "rethrow outside handler"); __CPROVER_assume(__vx_caught_n > 0);'
    ' __vx_caught_rethrown[__vx_caught_n - 1] = 1; __vx_exc_obj = __vx_caught_obj[__vx_caught_n - 1]; __vx_exc_type = __vx_caught_type[__vx_caught_n - 1];'
@@ -634,6 +634,7 @@ class Translator:
         s.ti_ids = {}       # typeinfo global name -> small int id
         s.autostubs = []
         s.rtbodies = []
+        s.throw_dtors = set()
         s.asserts = []      # harness assertion descriptions
         s.find_bigtabs()
 
@@ -673,7 +674,7 @@ class Translator:
                 if e: elems.append(e)
                 for idx, e in enumerate(elems):
                     fns = [v for k, v in e if k in ('name', 'qname') and v[0] == '@' and (v in s.m.funcs or v in s.m.decls)]
-                    if fns and idx >= 2: slots.setdefault(idx - 2, set()).add(fns[0])
+                    if fns and idx >= 2: slots.setdefault(idx - 2, set()).add((fns[0], n))
         s._vslots = slots
         return slots
 
@@ -879,6 +880,15 @@ class Translator:
         out.append(DYNCAST)
         out += s.rtbodies
         out += funcs
+        # destructor of a caught exception object: explicit dispatch over the destructors passed to __cxa_throw anywhere in the closure
+        # (a call through the stored pointer makes CBMC try every address-taken function of compatible shape)
+        dd = ['static void __vx_run_exc_dtor(void* d, void* obj) {']
+        for n in sorted(s.throw_dtors):
+            ft = m.funcs[n].ftype if n in m.funcs else m.decls.get(n)
+            if ft is None or not ft.params: continue
+            dd.append(' if (d == (void*)&%s) { %s((%s)obj); return; }' % (gname(n), gname(n), em.ctype(ft.params[0])))
+        dd.append(' __VX_ASSERT(0, "destructor of the caught exception is one passed to __cxa_throw in this closure"); }')
+        out.append('\n'.join(dd))
         return '\n'.join(out) + '\n'
 
     def cinit(s, ctx, p, ty):
@@ -1396,10 +1406,14 @@ class Translator:
                 slot = s.virtual_slot(callee)
                 if slot is not None:
                     key = s.loose_key(fty)
-                    cands = sorted(c for c in s.vtable_slots().get(slot, ()) if s.loose_key(s.m.funcs[c].ftype if c in s.m.funcs else s.m.decls[c]) == key)
+                    shape = [(c, vt) for c, vt in s.vtable_slots().get(slot, ()) if s.loose_key(s.m.funcs[c].ftype if c in s.m.funcs else s.m.decls[c]) == key]
+                    cands = sorted(set(c for c, vt in shape if s.class_compatible(vt, fty)))
+                    if not cands: cands = sorted(set(c for c, vt in shape))     # llvm-link merges isomorphic class types: the static class may be a stand-in
                     if cands:
                         s.devirt = getattr(s, 'devirt', 0) + 1
                         return s.devirt_call(cands, ctx.lname(callee), args, dst, rt, op, normal, unwind)
+            if name == '@__cxa_throw' and len(args) == 3 and args[2].gbase:
+                s.throw_dtors.add(args[2].gbase[0])
             if name == '@__CPROVER_assert':
                 lit = s.strlit(args[1])
                 s.asserts.append(lit)
@@ -1428,6 +1442,20 @@ class Translator:
             if not quiet and not nounwind_site:
                 out.append('if (__vx_pending) return %s;' % s.retzero)
         return out
+
+    def class_compatible(s, vtable, fty):
+        """the class owning `vtable` must derive from (or be) the static class of `this` at the call site, when both are known"""
+        if not fty.params or not isinstance(fty.params[0], PtrT) or not isinstance(fty.params[0].to, NamedT): return True
+        nm = fty.params[0].to.name.strip('%').strip('"')
+        mm = re.fullmatch(r'(?:class|struct)\.([\w:]+?)(?:\.\d+)?', nm)
+        if not mm: return True
+        parts = mm.group(1).split('::')
+        mang = ''.join('%d%s' % (len(p), p) for p in parts)
+        static_ti = '@_ZTI' + (('N' + mang + 'E') if len(parts) > 1 else mang)
+        if not hasattr(s, '_anc'): s._anc = s.typeinfo_tables()
+        cls_ti = '@_ZTI' + vtable[len('@_ZTV'):]
+        if static_ti not in s._anc or cls_ti not in s._anc: return True      # unknown hierarchy: keep the candidate
+        return static_ti in s._anc[cls_ti]
 
     def loose_key(s, ft):
         """signature shape with all pointer types identified ('this' is the derived class in the vtable entry, a base at the call site)"""
